@@ -35,6 +35,10 @@ Next ==
            /\ Len(tree[p].data) + len <= MaxLen
            /\ Go(TRUE, AppendT(p, len, tag)) /\ Log([a |-> "Append", p |-> p, len |-> len, tag |-> tag, held |-> Via(p)]) /\ tag' = tag + 1
            /\ held' = (IF Via(p) THEN "none" ELSE held)
+     \/ \E p \in Files : Via(p) /\ \E len \in {1, 5} :          \* the held file grows through ANOTHER handle; the kept one stays open
+           /\ Len(tree[p].data) + len <= MaxLen
+           /\ Go(TRUE, AppendT(p, len, tag)) /\ Log([a |-> "Append", p |-> p, len |-> len, tag |-> tag, held |-> FALSE]) /\ tag' = tag + 1
+           /\ UNCHANGED held
      \/ /\ WithTrunc
         /\ \E p \in Files : CanWrite(p) /\ \E n \in {0, 1, CU, Len(tree[p].data) - 1, Len(tree[p].data) + 1, Len(tree[p].data) + CU + 1} :
               /\ n >= 0 /\ n <= MaxLen + CU + 1 /\ n # Len(tree[p].data)
